@@ -171,14 +171,19 @@ theorem pull_sol (h : IsMGU env σ) (π : Nat → Nat) (τ2 : Subst) : Sol env (
     funext v; simp [pull, rename_subst]
   rwa [e] at this
 
+/-- the VM fails (no solution of `env` unifies a and b) ⇒ the images have no unifier -/
+theorem bridge_fail' (hσ : IsMGU env σ) (hfail : ¬ ∃ θ, Sol env θ ∧ a.subst θ = b.subst θ)
+    (τ2 : Subst) (hu : ((a.subst σ).rename π).subst τ2 = ((b.subst σ).rename π).subst τ2) : False := by
+  apply hfail
+  refine ⟨pull σ π τ2, pull_sol hσ π _, ?_⟩
+  rw [pull_subst, pull_subst]
+  exact hu
+
 /-- the VM fails (no solution of `env` unifies a and b) ⇒ the reference does not find an mgu -/
 theorem bridge_fail (hσ : IsMGU env σ) (hfail : ¬ ∃ θ, Sol env θ ∧ a.subst θ = b.subst θ)
     {n : Nat} {θ2 : List (Nat × Term)}
-    (hr : Robinson.solve n [((a.subst σ).rename π, (b.subst σ).rename π)] [] = .mgu θ2) : False := by
-  apply hfail
-  refine ⟨pull σ π (substOf θ2), pull_sol hσ π _, ?_⟩
-  rw [pull_subst, pull_subst]
-  exact solve_mgu_sound hr
+    (hr : Robinson.solve n [((a.subst σ).rename π, (b.subst σ).rename π)] [] = .mgu θ2) : False :=
+  bridge_fail' hσ hfail (substOf θ2) (solve_mgu_sound hr)
 
 /-- the VM goes on ⇒ the reference does not answer `clash` -/
 theorem bridge_clash (hσ : MG N env σ) (hc : ChainOK env)
@@ -204,21 +209,22 @@ theorem bridge_clash (hσ : MG N env σ) (hc : ChainOK env)
 
 /-- the VM goes on and the reference finds the mgu θ2 ⇒ the new environment is acyclic, and the two
     sides stay in step up to a renaming π' -/
-theorem bridge_ok (hσ : MG N env σ) (hM : N ≤ M) (hD : ∀ v, D v → v < M)
+theorem bridge_ok' (hσ : MG N env σ) (hM : N ≤ M) (hD : ∀ v, D v → v < M)
     (ha : ∀ v, a.hasVar v = true → D v) (hb : ∀ v, b.hasVar v = true → D v)
     (hπ : InjOn π (RV σ D))
     (hstep : MGUStep M env (fun θ => a.subst θ = b.subst θ) N' env')
     (hchain : UChain M env N' env')
-    {n : Nat} {θ2 : List (Nat × Term)}
-    (hr : Robinson.solve n [((a.subst σ).rename π, (b.subst σ).rename π)] [] = .mgu θ2) :
+    (τ2 : Subst)
+    (hsnd : ((a.subst σ).rename π).subst τ2 = ((b.subst σ).rename π).subst τ2)
+    (hgen : ∀ β : Subst, ((a.subst σ).rename π).subst β = ((b.subst σ).rename π).subst β →
+      ∀ v, β v = (τ2 v).subst β) :
     ∃ σ' π', MG N' env' σ' ∧ InjOn π' (RV σ' D) ∧
       ∀ t : Term, (∀ v, t.hasVar v = true → D v) →
-        (t.subst σ').rename π' = ((t.subst σ).rename π).subst (substOf θ2) := by
-  let τ2 := substOf θ2
+        (t.subst σ').rename π' = ((t.subst σ).rename π).subst τ2 := by
   let γ := pull σ π τ2
   have hγs : Sol env γ := pull_sol hσ.mgu π τ2
   have hγu : a.subst γ = b.subst γ := by
-    rw [pull_subst, pull_subst]; exact solve_mgu_sound hr
+    rw [pull_subst, pull_subst]; exact hsnd
   -- a solution of env' that agrees with γ below M
   obtain ⟨θ', hag, hθ'⟩ := (hstep.iff γ).2 ⟨hγs, hγu⟩
   obtain ⟨σ', hσ'⟩ := uchain_mg hchain ⟨σ, hσ.mono hM⟩ ⟨θ', hθ'⟩
@@ -244,7 +250,7 @@ theorem bridge_ok (hσ : MG N env σ) (hM : N ≤ M) (hD : ∀ v, D v → v < M)
     exact hσ.mgu.subst_general σ' hs0 t
   have hβu : ((a.subst σ).rename π).subst β = ((b.subst σ).rename π).subst β := by
     rw [hβπ a ha, hβπ b hb, hu0]
-  have hβg := solve_mgu_general hr β hβu
+  have hβg := hgen β hβu
   have hβ : ∀ v, D v → (γ v).subst β = σ' v := by
     intro v hv
     show (((σ v).rename π).subst τ2).subst β = σ' v
@@ -259,6 +265,18 @@ theorem bridge_ok (hσ : MG N env σ) (hM : N ≤ M) (hD : ∀ v, D v → v < M)
   intro t ht
   rw [subst_rename, ← pull_subst]
   exact subst_congr _ _ _ (fun v hv => hren v (ht v hv))
+
+theorem bridge_ok (hσ : MG N env σ) (hM : N ≤ M) (hD : ∀ v, D v → v < M)
+    (ha : ∀ v, a.hasVar v = true → D v) (hb : ∀ v, b.hasVar v = true → D v)
+    (hπ : InjOn π (RV σ D))
+    (hstep : MGUStep M env (fun θ => a.subst θ = b.subst θ) N' env')
+    (hchain : UChain M env N' env')
+    {n : Nat} {θ2 : List (Nat × Term)}
+    (hr : Robinson.solve n [((a.subst σ).rename π, (b.subst σ).rename π)] [] = .mgu θ2) :
+    ∃ σ' π', MG N' env' σ' ∧ InjOn π' (RV σ' D) ∧
+      ∀ t : Term, (∀ v, t.hasVar v = true → D v) →
+        (t.subst σ').rename π' = ((t.subst σ).rename π).subst (substOf θ2) :=
+  bridge_ok' hσ hM hD ha hb hπ hstep hchain (substOf θ2) (solve_mgu_sound hr) (solve_mgu_general hr)
 
 end bridge
 
